@@ -97,8 +97,10 @@ enum CtForm {
     Absent,
     UnknownLabel,
     NoParameter,
+    /// a parameter section shorter than `charset=` (`t/s;`, `t/s; q=1`, ...)
+    ShortParameter,
 }
-const CT_FORMS: [CtForm; 5] = [CtForm::WithBlank, CtForm::NoBlank, CtForm::Absent, CtForm::UnknownLabel, CtForm::NoParameter];
+const CT_FORMS: [CtForm; 6] = [CtForm::WithBlank, CtForm::NoBlank, CtForm::Absent, CtForm::UnknownLabel, CtForm::NoParameter, CtForm::ShortParameter];
 
 #[derive(Clone, Copy, Debug, PartialEq)]
 enum Defaults {
@@ -362,6 +364,7 @@ fn select(cs: Charset, label: &str, form: CtForm, defaults: Defaults, k: u64) ->
         CtForm::Absent => (None, fallback.0, fallback.1, session_default, request_default),
         CtForm::UnknownLabel => (Some(format!("{t}; charset=x-no-such-charset-{}", k % 7).into_bytes()), fallback.0, fallback.1, session_default, request_default),
         CtForm::NoParameter => (Some(t.as_bytes().to_vec()), fallback.0, fallback.1, session_default, request_default),
+        CtForm::ShortParameter => (Some(format!("{t}{}", [";", "; ", "; q=1", ";a=b", "; chars"][(k % 5) as usize]).into_bytes()), fallback.0, fallback.1, session_default, request_default),
     }
 }
 
@@ -385,8 +388,8 @@ fn run_matrix(ctx: &mut Ctx, _rng: &mut Rng, index: u64) {
     let mut i = index;
     let defaults = DEFAULTS[(i % 5) as usize];
     i /= 5;
-    let form = CT_FORMS[(i % 5) as usize];
-    i /= 5;
+    let form = CT_FORMS[(i % 6) as usize];
+    i /= 6;
     let casev = i % 3;
     i /= 3;
     let (cs, label) = labels[i as usize % labels.len()].clone();
